@@ -609,21 +609,22 @@ macro "sim_walk0" : tactic => `(tactic| repeat' (first
   | simp only []))
 
 open Lean Elab Tactic Meta in
-/-- goal `Sim (match … call … with …) rhs` where `call` is `apiUpdate (pkd …) …` or
-    `apiUpdateRanges (pkd …) …` inside the discriminant of the left-hand match: generalise it to `X`
-    (with `hX : call = X`) -/
+/-- goal `Sim (match … MapObj.norm <$> call … with …) rhs`, where `call` (an API call whose
+    counterpart on the normal form has been rewritten to `MapObj.norm <$> call`) has no bound
+    variables: generalise `call` to `X` (with `hX : call = X`) — it then has the same outcome on
+    both sides -/
 elab "gen_pkd_call" : tactic => withMainContext do
   let g ← getMainGoal
   let tgt := (← instantiateMVars (← g.getType)).consumeMData
   unless tgt.isAppOfArity ``Sim 2 do throwError "not a Sim goal: {tgt}"
   let lhs := tgt.appFn!.appArg!.consumeMData
   let some app ← Lean.Meta.matchMatcherApp? lhs | throwError "the left-hand side is not a match"
-  let isCall (e : Expr) : Bool :=
-    (e.isAppOfArity ``apiUpdate 6 || e.isAppOfArity ``apiUpdateRanges 5) && !e.hasLooseBVars &&
-      (e.getAppArgs[0]!).isAppOf ``pkd
-  let some e := app.discrs.findSome? (fun d => d.find? isCall)
-    | throwError "no call on a bit-packed object in the discriminant"
-  let (_, g') ← g.generalize #[{ expr := e, xName? := `X, hName? := `hX }]
+  let isMapped (e : Expr) : Bool :=
+    e.isAppOfArity ``Functor.map 6 && !e.hasLooseBVars &&
+      ((e.getArg! 4).isConstOf ``MapObj.norm || (e.getArg! 4).isConstOf ``FileObj.norm)
+  let some t := app.discrs.findSome? (fun d => d.find? isMapped)
+    | throwError "no normalised call in the discriminant"
+  let (_, g') ← g.generalize #[{ expr := t.getArg! 5, xName? := `X, hName? := `hX }]
   replaceMainGoal [g']
 
 set_option hygiene false in
@@ -638,6 +639,7 @@ macro "sim_walk" : tactic => `(tactic| repeat' (first
   | exact sim_bind w _ _ (MapObj.norm_norm _)
   | exact sim_bind w _ _ (by simp only [MapObj.norm, Kind.norm_norm])
   | exact sim_bind_metas w _ _ _ rfl
+  | exact sim_bind_metas w _ _ _ (MapObj.norm_norm _)
   | exact sim_metas w _ _
   | exact sim_mocs w _ _
   | exact sim_hpfiles w _ _
@@ -649,5 +651,68 @@ macro "sim_walk" : tactic => `(tactic| repeat' (first
   | simp +instances only [Kind.isBool.eq_1, Kind.isBool.eq_2, Kind.isIntegerMap.eq_2, Kind.isIntegerMap.eq_3,
       apiUpdate_pkd_norm, apiUpdateRanges_pkd_norm]
   | split))
+
+/-! ### files under normalisation -/
+
+@[simp] theorem FileObj.norm_covord (f : FileObj) : f.norm.covord = f.covord := by unfold FileObj.norm; split <;> rfl
+@[simp] theorem FileObj.norm_spord (f : FileObj) : f.norm.spord = f.spord := by unfold FileObj.norm; split <;> rfl
+@[simp] theorem FileObj.norm_sentinel (f : FileObj) : f.norm.sentinel = f.sentinel := by unfold FileObj.norm; split <;> rfl
+@[simp] theorem FileObj.norm_mdata (f : FileObj) : f.norm.mdata = f.mdata := by unfold FileObj.norm; split <;> rfl
+@[simp] theorem FileObj.norm_file (f : FileObj) : f.norm.file = f.file := by unfold FileObj.norm; split <;> rfl
+
+theorem FileObj.norm_of_not_bitpack {f : FileObj} (h : f.bitpack = false) : f.norm = f := by
+  unfold FileObj.norm; simp [h]
+
+/-- a well-typed bit-packed file has the sentinel `False` -/
+theorem FileObj.sentinel_of_bitpack {f : FileObj} (hf : f.KindOk) (hb : f.bitpack = true) :
+    f.sentinel = .bool false := by
+  have hk : fileKind f = some .packed := by unfold fileKind; simp [hb]
+  have := hf .packed hk ⟨0, 0, .packed, f.sentinel, ⟨#[], #[]⟩, none, none⟩ rfl rfl
+  exact eq_of_beq this
+
+/-- a bit-packed file: literally -/
+theorem FileObj.bitpack_cases (f : FileObj) (hf : f.KindOk) :
+    f.bitpack = false ∨ ∃ co so a p fs ww md fl, f = ⟨co, so, a, .bool false, p, fs, ww, true, md, fl⟩ := by
+  by_cases hb : f.bitpack = true
+  · right
+    have hs := FileObj.sentinel_of_bitpack hf hb
+    obtain ⟨co, so, a, s, p, fs, ww, b, md, fl⟩ := f
+    simp only at hb hs
+    subst hb hs
+    exact ⟨co, so, a, p, fs, ww, md, fl, rfl⟩
+  · left; simpa using hb
+
+theorem apiRead_norm {f : FileObj} (hf : f.KindOk) (px : Option (List Nat)) :
+    apiRead f.norm px = MapObj.norm <$> apiRead f px := by
+  rcases f.bitpack_cases hf with hb | ⟨co, so, a, p, fs, ww, md, fl, rfl⟩
+  · rw [FileObj.norm_of_not_bitpack hb]
+    cases h : apiRead f px with
+    | error e => rfl
+    | ok m =>
+      obtain ⟨kind, hk, _, _, h3, _⟩ := apiRead_ok h
+      have : m.kind ≠ .packed := by
+        rw [h3]
+        intro hkp; rw [hkp] at hk
+        unfold fileKind at hk
+        simp only [hb, Bool.false_eq_true, if_false] at hk
+        split at hk
+        · cases hp : f.primary <;> rw [hp] at hk <;> cases hk
+        · split at hk
+          · cases hk
+          · split at hk
+            · cases hk
+            · cases hd : parseDTCode f.arrDT <;> rw [hd] at hk <;> cases hk
+      show Except.ok m = Except.ok m.norm
+      rw [MapObj.norm_of_ne this]
+  · unfold apiRead
+    cases px with
+    | none => rfl
+    | some l =>
+      have e : ("i2" == "rec") = false := by decide
+      have hv : (⟨(Kind.plain .bool).blank (.bool false), (Kind.plain .bool).valid (.bool false)⟩ : VCfg Val) =
+          ⟨Kind.packed.blank (.bool false), Kind.packed.valid (.bool false)⟩ := rfl
+      simp only [FileObj.norm, fileKind, bind, Except.bind, pure, Except.pure, ↓reduceIte, e,
+        Bool.false_eq_true, Bool.and_false, if_false, hv]
+      split <;> rfl
 
 end HS
